@@ -52,7 +52,7 @@ def main(c):
                         continue
                     seen.add(sig)
                     c.violation("c03.stream", dict({k: j[k] for k in j if k != "i"}, profile=prof), {"spec": "Framing", "edge": j})
-    budget = 100000 if thorough else 150
+    budget = 3000 if thorough else 150      # 1000 = about 2.4 M decoder runs, 3 min in the dev profile
     for prof in profiles:
         outp = os.path.join(vf.WORK, f"C03.sweep.{prof}.out")
         rc, so, se = vf.lib_run("frame_replay", ["sweep", str(c.seed + 1), str(budget), outp], timeout=3000, profile=prof)
